@@ -14,9 +14,20 @@ C14 driver handlers for the generated IR (executable trace semantics of `IR.lean
 import Bee2V.Base.Proto
 import Bee2V.C14.IR
 import Bee2V.Gen.C14IR
+import Bee2V.Gen.C14IR32
 
 namespace Bee2V.C14.Drv
-open Bee2V.Proto Bee2V.C14.IR Bee2V.Gen.C14IR
+open Bee2V.Proto Bee2V.C14.IR
+
+/-- one generated module: the IR of one word-size configuration -/
+structure G where
+  prog : Prog
+  names : List (String × Nat × Bool)
+  globals : List (Nat × List Nat)
+  wordOctets : Nat
+
+def g64 : G := ⟨Bee2V.Gen.C14IR.prog, Bee2V.Gen.C14IR.names, Bee2V.Gen.C14IR.globals, 8⟩
+def g32 : G := ⟨Bee2V.Gen.C14IR32.prog, Bee2V.Gen.C14IR32.names, Bee2V.Gen.C14IR32.globals, 4⟩
 
 def fuel : Nat := 4000000
 
@@ -34,7 +45,7 @@ def putNats (m : Store) (a : Nat) : List Nat → Store
   | [] => m
   | b :: bs => putNats (wr m a b) (a + 1) bs
 
-def initPub : Store := globals.foldl (fun m g => putNats m g.1 g.2) ∅
+def initPub (g : G) : Store := g.globals.foldl (fun m x => putNats m x.1 x.2) ∅
 
 /-- (is public, length, printed) of each buffer -/
 structure Buf where
@@ -46,7 +57,7 @@ structure Parsed where
   vals : List Nat := []
   bufs : List Buf := []
   sec : Store := ∅
-  pub : Store := initPub
+  pub : Store := ∅
 
 def parseArg (p : Parsed) (a : String) : Option Parsed :=
   let tag := a.take 1
@@ -81,28 +92,29 @@ def parseArgs : Parsed → List String → Option Parsed
     | some p' => parseArgs p' as
     | none => none
 
-def findFun (name : String) : Option (Nat × Nat × Bool) :=
+def findFun (g : G) (name : String) : Option (Nat × Nat × Bool) :=
   let rec go (i : Nat) : List (String × Nat × Bool) → Option (Nat × Nat × Bool)
     | [] => none
     | (n, b, s) :: r => if n == name then some (i, b, s) else go (i + 1) r
-  go 0 names
+  go 0 g.names
 
 def showRet (bits : Nat) (sg : Bool) (v : Nat) : String :=
   if bits == 0 then "-" else toString (toInt ⟨bits, sg⟩ v)
 
-def dumpBufs (e : Env) (bufs : List Buf) : String :=
+def dumpBufs (e : Env) (bufs : List Buf) (trunc0 : Nat := 0) : String :=
   let rec go (k : Nat) : List Buf → List String
     | [] => []
     | b :: r =>
-      (if b.show_ then [toHex (getBytes (if b.pub then e.pub else e.sec) (bufBase k) b.len)] else []) ++ go (k + 1) r
+      (if b.show_ then [toHex (getBytes (if b.pub then e.pub else e.sec) (bufBase k)
+          (if k == 0 && trunc0 != 0 && trunc0 < b.len then trunc0 else b.len))] else []) ++ go (k + 1) r
   " ".intercalate (go 0 bufs)
 
-def runFun (idx : Nat) (p : Parsed) : Option (Env × List Obs) :=
-  match prog.funs[idx]? with
+def runFun (g : G) (idx : Nat) (p : Parsed) : Option (Env × List Obs) :=
+  match g.prog.funs[idx]? with
   | none => none
   | some fn =>
     if p.vals.length != fn.nparams then none else
-    some (exec prog true fuel fn.body
+    some (exec g.prog true fuel fn.body
       { vars := bindArgs 0 p.vals ∅, sec := p.sec, pub := p.pub, st := 0, rv := 0, ora := [] })
 
 def obsCode : Obs → Nat
@@ -115,11 +127,11 @@ def digest (os : List Obs) : Nat :=
 
 def branches (os : List Obs) : Nat := (os.filter fun o => match o with | .br _ => true | _ => false).length
 
-def handleIr (trace : Bool) : List String → String
+def handleIr (g : G) (trace : Bool) : List String → String
   | name :: args =>
-    match findFun name, parseArgs {} args with
+    match findFun g name, parseArgs { pub := initPub g } args with
     | some (idx, bits, sg), some p =>
-      match runFun idx p with
+      match runFun g idx p with
       | none => "bad-op"
       | some (e, os) =>
         if e.st == 9 then "out-of-fuel"
@@ -134,23 +146,42 @@ def handleIr (trace : Bool) : List String → String
 /-- the program in which the `…StepG_internal` routines are replaced by `skip`: their effect (the
 true tag in the state field) is supplied by the op line, because the block primitives they call
 are opaque in the IR -/
-def progStepV : Prog :=
-  { prog with funs := (prog.funs.zip names).map fun (fn, nm) =>
+def progStepV (g : G) : Prog :=
+  { g.prog with funs := (g.prog.funs.zip g.names).map fun (fn, nm) =>
       if nm.1.endsWith "StepG_internal" then { fn with body := .skip } else fn }
 
-def handleStepV : List String → String
+/-- `sf` line: the IR is the regular edition; the fast edition must give the same result, so the
+model's answer is `r | r` (for the reductions only the first n words of `a` are the result) -/
+def handleSf (g : G) : List String → String
+  | name :: args =>
+    match findFun g name, parseArgs { pub := initPub g } args with
+    | some (idx, bits, sg), some p =>
+      match runFun g idx p with
+      | none => "bad-op"
+      | some (e, _) =>
+        if e.st == 9 then "out-of-fuel"
+        else if e.st == 8 then "stuck"
+        else
+          let tr := if name.startsWith "zzRed" then (p.vals.getD 2 0) * g.wordOctets else 0
+          let d := dumpBufs e p.bufs tr
+          let r := showRet bits sg e.rv ++ (if d.isEmpty then "" else " " ++ d)
+          r ++ " | " ++ r
+    | _, _ => "bad-op"
+  | _ => "bad-op"
+
+def handleStepV (g : G) : List String → String
   | [name, _key, _iv, _data, tag, len, truetag, off, size] =>
-    match findFun name, parseHex tag, parseNat len, parseHex truetag, parseNat off, parseNat size with
+    match findFun g name, parseHex tag, parseNat len, parseHex truetag, parseNat off, parseNat size with
     | some (idx, bits, sg), some tg, some ln, some tt, some o, some sz =>
-      match prog.funs[idx]? with
+      match g.prog.funs[idx]? with
       | none => "bad-op"
       | some fn =>
         let tagA := bufBase 0
         let stA := bufBase 1
         let sec := putBytes (putBytes (putBytes ∅ tagA tg) stA (List.replicate sz 0)) (stA + o) tt
         let vals := if fn.nparams == 3 then [tagA, ln, stA] else [tagA, stA]
-        let r := exec progStepV true fuel fn.body
-          { vars := bindArgs 0 vals ∅, sec := sec, pub := initPub, st := 0, rv := 0, ora := [] }
+        let r := exec (progStepV g) true fuel fn.body
+          { vars := bindArgs 0 vals ∅, sec := sec, pub := initPub g, st := 0, rv := 0, ora := [] }
         if r.1.st == 9 then "out-of-fuel" else if r.1.st == 8 then "stuck" else showRet bits sg r.1.rv
     | _, _, _, _, _, _ => "bad-op"
   | _ => "bad-op"
